@@ -249,7 +249,7 @@ pub fn run_c10(ctx: &Ctx) -> Report {
         judge("C10", &obs, &cv, rep, &d, true);
     });
     rep.merge(r);
-    if !ctx.miri && ctx.only.is_none() {
+    if ctx.strict() {
         rep.require("illegal_operations_expected_refused", 10);
         rep.require("closes_expected", 10);
         rep.require("re_prepares", 10);
@@ -363,7 +363,7 @@ pub fn run_c16(ctx: &Ctx) -> Report {
         judge("C16", &obs, &cv, rep, &d, false);
     });
     rep.merge(r);
-    if !ctx.miri && ctx.only.is_none() {
+    if ctx.strict() {
         rep.require("reuse_executions", 100);
         rep.require("rebind_executions", 100);
         rep.require("histories_interleaving_statements", 100);
@@ -483,7 +483,7 @@ pub fn run_c17(ctx: &Ctx) -> Report {
         });
         rep.merge(r);
     }
-    if !ctx.miri && ctx.only.is_none() {
+    if ctx.strict() {
         rep.require("chunks_sent", 100);
         rep.require("long_data_parameters_expected", 100);
         rep.require("second_execution_must_see_inline_values", 10);
